@@ -518,27 +518,27 @@ func runC14(c *Ctx) {
 	var keep []*Validator // Cleanup flushes the process-wide table: validators of the timed cases are closed at the end
 	var keepMu sync.Mutex
 	others := func() {
-	// (1) key: two issuers, same subject and serial
-	wg.Add(1)
-	go func() {
-		defer wg.Done()
-		cs := &c14Case{Name: "same-subject-and-serial-under-two-issuers"}
-		org := NewOrigin()
-		defer org.Close()
-		name := pkix.Name{CommonName: "alice", Organization: []string{"shared"}}
-		serial := nextOCSPSerial()
-		l1 := p.CA.IssueLeaf(LeafOpts{Name: &name, Serial: serial, OCSP: []string{org.URL("/ca")}})
-		l2 := p.Sibling.IssueLeaf(LeafOpts{Name: &name, Serial: serial, OCSP: []string{org.URL("/sib")}})
-		org.ServeOCSP("/ca", p.CA, func(int) OCSPBehaviour { return OCSPGood }, nil)
-		org.ServeOCSP("/sib", p.Sibling, func(int) OCSPBehaviour { return OCSPRevoked }, nil)
-		v, err := NewValidator(VCfg{Mode: "ocsp_only", AIAStrict: true, CacheDuration: "1h", NoCRLConfig: true})
-		mustNoErr(err)
-		defer v.Close()
-		cs.Events = []string{"handshake alice/CA (responder: good)", "handshake alice/Sibling (responder: revoked)"}
-		cs.Obs = []string{classify(v.Verify(l1.Cert, p.CA.Cert, p.Root.Cert)), classify(v.Verify(l2.Cert, p.Sibling.Cert, p.Root.Cert))}
-		cs.Want = []string{"accept", "revoked"}
-		add(cs)
-	}()
+		// (1) key: two issuers, same subject and serial
+		wg.Add(1)
+		go func() {
+			defer wg.Done()
+			cs := &c14Case{Name: "same-subject-and-serial-under-two-issuers"}
+			org := NewOrigin()
+			defer org.Close()
+			name := pkix.Name{CommonName: "alice", Organization: []string{"shared"}}
+			serial := nextOCSPSerial()
+			l1 := p.CA.IssueLeaf(LeafOpts{Name: &name, Serial: serial, OCSP: []string{org.URL("/ca")}})
+			l2 := p.Sibling.IssueLeaf(LeafOpts{Name: &name, Serial: serial, OCSP: []string{org.URL("/sib")}})
+			org.ServeOCSP("/ca", p.CA, func(int) OCSPBehaviour { return OCSPGood }, nil)
+			org.ServeOCSP("/sib", p.Sibling, func(int) OCSPBehaviour { return OCSPRevoked }, nil)
+			v, err := NewValidator(VCfg{Mode: "ocsp_only", AIAStrict: true, CacheDuration: "1h", NoCRLConfig: true})
+			mustNoErr(err)
+			defer v.Close()
+			cs.Events = []string{"handshake alice/CA (responder: good)", "handshake alice/Sibling (responder: revoked)"}
+			cs.Obs = []string{classify(v.Verify(l1.Cert, p.CA.Cert, p.Root.Cert)), classify(v.Verify(l2.Cert, p.Sibling.Cert, p.Root.Cert))}
+			cs.Want = []string{"accept", "revoked"}
+			add(cs)
+		}()
 
 	}
 	// (2) lifetime: reads more often than the lifetime must not keep the entry alive
